@@ -1,4 +1,5 @@
 """C14 property values: the Variant tagged union (kernel).  DESIGN.md section 7."""
+from cxx2c import Tok, P, seq_at, match_close, fire
 S = 'src/Variant.cpp'; H = 'include/nix/Variant.hpp'
 def m(loc, **kw):
     d = dict(file=S, locator=loc, cls='Variant', cls_file=H, classes=['Variant']); d.update(kw); return d
@@ -18,14 +19,38 @@ UNITS = {
     'Variant_supports_type': m(r'bool\s+Variant::supports_type\s*\(', static_member=True),
     'Variant_set_cstr_len': m(r'void\s+Variant::set\s*\((?=\s*const\s+char\s*\*\s*value\s*,\s*const\s+size_t\s+len)'),
 }
+def set_overloads(ctx, toks):
+    """set(other.v_X) -> Variant_set_X(self, other.v_X) (overload chosen by the member's declared type); set(none) -> Variant_set_none(self, 0);
+       assert(e) -> __CPROVER_assert(e, "assert")"""
+    MAP = {'v_bool': 'bool', 'v_int32': 'int32', 'v_uint32': 'uint32', 'v_int64': 'int64', 'v_uint64': 'uint64', 'v_double': 'double', 'v_string': 'cstr'}
+    out = []; i = 0
+    while i < len(toks):
+        t = toks[i]
+        if t.t == 'set' and toks[i + 1].t == '(' and (not out or out[-1].t not in ('.', '->')):
+            e = match_close(toks, i + 1)
+            arg = toks[i + 2:e]
+            if len(arg) == 3 and arg[0].t == 'other' and arg[1].t == '.' and arg[2].t in MAP:
+                out.extend([Tok('id', 'Variant_set_' + MAP[arg[2].t], t.ws), P('(', ''), Tok('id', 'self', ''), P(',', '')] + arg + [P(')', '')])
+                i = e + 1; fire(ctx, 'set-overload-by-member-type'); continue
+            if len(arg) == 1 and arg[0].t in ('none', 'OPT_NONE'):
+                out.extend([Tok('id', 'Variant_set_none', t.ws), P('(', ''), Tok('id', 'self', ''), P(',', ''), Tok('num', '0', ' '), P(')', '')])
+                i = e + 1; fire(ctx, 'set-none'); continue
+        if t.t == 'assert' and toks[i + 1].t == '(':
+            e = match_close(toks, i + 1)
+            out.extend([Tok('id', '__CPROVER_assert', t.ws), P('(', '')] + toks[i + 2:e] + [P(',', ''), Tok('str', '"assert"', ' '), P(')', '')])
+            i = e + 1; fire(ctx, 'assert'); continue
+        out.append(t); i += 1
+    return out
+UNITS['Variant_assign_variant_from'] = m(r'void\s+Variant::assign_variant_from\s*\(', pre_rules=[set_overloads])
 FL = ['--malloc-may-fail', '--malloc-fail-null']
 def job(fn, replace=(), **kw):
-    d = dict(name=fn, bodies=[fn], enforce=[fn], replace=list(replace), expect_kinds=['postcondition'], timeout=300, cbmc_flags=FL); d.update(kw); return d
+    d = dict(name=fn, bodies=[fn], enforce=[fn], replace=list(replace), expect_kinds=['postcondition'], timeout=300, cbmc_flags=FL, object_bits=8); d.update(kw); return d
 JOBS = [job('Variant_maybe_deallocte_string')] + \
-       [job('Variant_set_' + t, ['Variant_maybe_deallocte_string']) for t in ('bool', 'int32', 'uint32', 'int64', 'uint64', 'double', 'none')] + \
+       [job('Variant_set_' + t, bodies=['Variant_maybe_deallocte_string', 'Variant_set_' + t]) for t in ('bool', 'int32', 'uint32', 'int64', 'uint64', 'double', 'none')] + \
        [job('Variant_check_argument_type')] + \
        [job('Variant_get_' + t, ['Variant_check_argument_type']) for t in ('bool', 'int32', 'uint32', 'int64', 'uint64', 'double')] + \
-       [job('Variant_supports_type'), job('Variant_set_cstr_len', cbmc_flags=FL + ['--unwind', '18', '--unwinding-assertions'])]
+       [job('Variant_supports_type'), job('Variant_set_cstr_len', cbmc_flags=FL + ['--unwind', '18', '--unwinding-assertions'], bounded='string length < 16 (memcpy of a symbolic length)'),
+        job('Variant_assign_variant_from', ['Variant_set_' + t for t in ('bool', 'int32', 'uint32', 'int64', 'uint64', 'double', 'none', 'cstr')])]
 SPEC = dict(contracts=['c14_variant.h'], stubs=[], units=UNITS, jobs=JOBS,
             trusted_base=['CBMC 6.11.0 (C front end, --dfcc, SAT back end; malloc/realloc/free/memcpy models of the CPROVER library, malloc may fail and return NULL)',
                           'vlib/cxx2c.py idiom map'],
